@@ -140,6 +140,19 @@ func NewFlow(w *World, pkg *packages.Package, body *ast.BlockStmt, name string) 
 	return f
 }
 
+// newFlowInfo builds a flow over a block when only the types.Info is at hand
+// (no interprocedural facts can be used on it).
+func newFlowInfo(info *types.Info, body *ast.BlockStmt) *Flow {
+	f := &Flow{Info: info, Body: body, blockOf: map[ast.Node]*cfg.Block{}}
+	f.G = cfg.New(body, func(call *ast.CallExpr) bool { return !isPanicCall(info, call) })
+	for _, b := range f.G.Blocks {
+		for _, n := range b.Nodes {
+			f.blockOf[n] = b
+		}
+	}
+	return f
+}
+
 func (w *World) FlowOf(fi *FuncInfo) *Flow {
 	return NewFlow(w, fi.Pkg, fi.Decl.Body, fi.Name())
 }
